@@ -158,6 +158,31 @@ fn c17_with(log: &mut Log, seed: u64, tier: &str, limits: bool) {
                     Ok(g) => log.ev(json!({"ev": "LevS", "q": q, "d": d, "keys": ks, "got": g})),
                     Err(p) => log.ev(json!({"ev": "Panic", "in": "search", "msg": p})),
                 }
+                // the same search above a lower bound (the seek replays the automaton along the
+                // bound): the keys in range are those at or after the bound in byte order
+                for j in 0..3usize {
+                    let base = &kset[(qi * 7 + d as usize * 3 + j * 11) % kset.len()];
+                    let mut bound = base.as_bytes().to_vec();
+                    if j == 2 {
+                        bound.push(0xB0); // between a key and its extensions, inside a character
+                    }
+                    let strict = (qi + j) % 2 == 0;
+                    let in_range: Vec<Vec<usize>> = kset.iter().filter(|k| if strict { k.as_bytes() > &bound[..] } else { k.as_bytes() >= &bound[..] })
+                        .map(|k| back[k].clone()).collect();
+                    let got: Result<Vec<Vec<usize>>, String> = guard(|| {
+                        let sb = set.search(&lev);
+                        let mut st = if strict { sb.gt(&bound).into_stream() } else { sb.ge(&bound).into_stream() };
+                        let mut out = vec![];
+                        while let Some(k) = st.next() {
+                            out.push(back[std::str::from_utf8(k).unwrap()].clone());
+                        }
+                        out
+                    });
+                    match got {
+                        Ok(g) => log.ev(json!({"ev": "LevS", "q": q, "d": d, "keys": in_range, "got": g, "bound": jb(&bound), "strict": strict})),
+                        Err(p) => log.ev(json!({"ev": "Panic", "in": "bounded search", "msg": p})),
+                    }
+                }
             }
         }
     }
